@@ -390,6 +390,61 @@ fn gen_lying_lengths(_ctx: &Ctx, targets: &[Target], thorough: bool, emit: Emit)
     }
 }
 
+/// Structure-aware length lies for CBOR codecs: at every offset whose byte has major type 2..5
+/// (byte string, text, array, map — whether or not it really is a header; over-approximation is
+/// harmless for a totality oracle) the header **and its argument** are replaced by a header of the
+/// same major type carrying every declared length of [`LENGTHS`] at every width that can hold it,
+/// the rest of the valid encoding kept as the tail.  This is how a lying element count reaches a
+/// field deep inside an otherwise well-formed message (e.g. the second array of a scene record),
+/// which neither the top-level header-shape family nor fixed-width overwrites can produce.
+fn gen_cbor_header_rewrite(_ctx: &Ctx, targets: &[Target], thorough: bool, emit: Emit) {
+    let names = by_name(targets);
+    for (name, group, mut encs) in encodings(thorough, if thorough { 0 } else { 4 }) {
+        let Some(&ti) = names.get(name.as_str()) else { continue };
+        if !matches!(group, "abi-cbor" | "abi-dto" | "edict-cbor" | "scene-cbor") {
+            continue;
+        }
+        encs.retain(|e| e.len() <= if thorough { 2048 } else { 512 });
+        for e in &encs {
+            for p in 0..e.len() {
+                let major = e[p] >> 5;
+                if !(2..=5).contains(&major) {
+                    continue;
+                }
+                let old_arg = match e[p] & 0x1f {
+                    24 => 1,
+                    25 => 2,
+                    26 => 4,
+                    27 => 8,
+                    _ => 0,
+                };
+                let rest_from = (p + 1 + old_arg).min(e.len());
+                for &l in &LENGTHS {
+                    for (info, max) in [(24u8, 0xffu64), (25, 0xffff), (26, 0xffff_ffff), (27, u64::MAX)] {
+                        if l > max {
+                            continue;
+                        }
+                        emit(ti, &|| {
+                            let mut b = e[..p].to_vec();
+                            b.extend_from_slice(&cbor_head(major, info, l));
+                            b.extend_from_slice(&e[rest_from..]);
+                            b
+                        });
+                    }
+                    if l <= 23 {
+                        emit(ti, &|| {
+                            let mut b = e[..p].to_vec();
+                            b.push((major << 5) | l as u8);
+                            b.extend_from_slice(&e[rest_from..]);
+                            b
+                        });
+                    }
+                }
+            }
+        }
+    }
+}
+
 fn gen_mutations(_ctx: &Ctx, targets: &[Target], thorough: bool, emit: Emit) {
     let names = by_name(targets);
     for (name, _group, mut encs) in encodings(thorough, if thorough { 0 } else { 3 }) {
@@ -605,11 +660,12 @@ fn gen_wasm_boundary(_ctx: &Ctx, targets: &[Target], thorough: bool, emit: Emit)
     }
 }
 
-pub static FAMILIES: [Family; 8] = [
+pub static FAMILIES: [Family; 9] = [
     Family { name: "cbor-header-lengths", what: "every CBOR header shape × declared length × tail {none,1,exact} × {top, in array, map value, map key} → every CBOR-consuming target", gen: gen_cbor_header_lengths },
     Family { name: "nesting", what: "nesting depth 2^0..2^15 (quick) / 2^20 (thorough) of arrays, map values, map keys, tags; LE option tags", gen: gen_nesting },
     Family { name: "truncations", what: "every valid encoding of every codec truncated at every length", gen: gen_truncations },
     Family { name: "lying-lengths", what: "u64/u32 (LE; BE too for CBOR codecs) declared-length values written at every offset of valid encodings", gen: gen_lying_lengths },
+    Family { name: "cbor-header-rewrite", what: "in every valid encoding of every CBOR codec (ABI value + DTOs, Edict, scene): at every offset of major type 2..5 the header+argument replaced by the same major with every declared length × every width that can carry it, tail kept", gen: gen_cbor_header_rewrite },
     Family { name: "mutations", what: "single-position mutants (8 bit flips, ±1, 00/FF, delete, duplicate) of valid encodings (C12 (c) inputs, nothing skipped)", gen: gen_mutations },
     Family { name: "wsc-lying-fields", what: "every 8-aligned u64 of three WSC files set to 0,1,len−1,len,len+1,len/2,2^32,2^63,2^64−8,2^64−1,… + every truncation → validate path and unvalidated view accessors", gen: gen_wsc_lying_fields },
     Family { name: "wal-segment", what: "recover_wal_segment_bytes (read-only and writable) on a committed segment: every truncation, every single-position mutant, lying u64 lengths, and payload edits with re-signed disk records", gen: gen_wal_segment },
